@@ -1,17 +1,28 @@
 #!/usr/bin/env python3
-"""Generates plan files for the memdb-wide properties from one table of verified functions."""
+"""Generates plan files (/verif/plan/<id>.json) from tools/plan_table.json: named function sets + per-property groups."""
 import json, os
 root = os.path.dirname(os.path.dirname(os.path.abspath(__file__)))
 T = json.load(open(os.path.join(root, 'tools', 'plan_table.json')))
-def write(pid, level, pkgs, funcs, assumptions, bounded=None, lemmas=None):
-    p = {"property": pid, "level": level, "packages": pkgs, "functions": funcs, "assumptions": assumptions}
-    if bounded: p["bounded"] = bounded
-    if lemmas: p["lemmas"] = lemmas
+sets = T['sets']
+def expand(keys):
+    out = []
+    for k in keys:
+        if k.startswith('@'):
+            out += expand(sets[k[1:]])
+        else:
+            out.append(k)
+    return out
+for pid, spec in T['plans'].items():
+    funcs, seen = [], set()
+    for grp in spec['groups']:
+        for k in expand(grp['keys']):
+            if k in seen:
+                continue
+            seen.add(k)
+            funcs.append({"key": k, "select": grp['select']})
+    p = {"property": pid, "level": spec['level'], "packages": spec['packages'], "functions": funcs, "assumptions": spec.get('assumptions', [])}
+    for opt in ('bounded', 'lemmas'):
+        if spec.get(opt):
+            p[opt] = spec[opt]
     json.dump(p, open(os.path.join(root, 'plan', pid + '.json'), 'w'), indent=1)
-for pid, spec in T.items():
-    funcs = []
-    for grp in spec["groups"]:
-        for k in grp["keys"]:
-            funcs.append({"key": k, "select": grp["select"]})
-    write(pid, spec["level"], spec["packages"], funcs, spec.get("assumptions", []), spec.get("bounded"), spec.get("lemmas"))
-print("plans:", ", ".join(T.keys()))
+print("plans:", ", ".join(T['plans'].keys()))
